@@ -149,6 +149,15 @@ class LIndex:
         return list(self.c.levels)
 
 
+def _lindex_getattr(self, k):
+    if k.startswith("__"):
+        raise AttributeError(k)
+    raise Unsupported("index proxy has no attribute " + k)
+
+
+LIndex.__getattr__ = _lindex_getattr
+
+
 class SymRangeL:
     def __init__(self, a, b):
         self.a, self.b = a, b
